@@ -8,11 +8,74 @@ use crate::prng::{Rng, hash_str};
 use serde_json::{Value, json};
 use std::time::Instant;
 
+/// Replace the content of every '..' and ".." literal (outside comments) by a string made only of
+/// multi-byte characters (2, 3 and 4 byte wide), one distinct string per distinct content; layout
+/// and everything else stay as they are, so the document stays valid and lines end where they did.
+pub fn multibyte_literals(text: &str) -> String {
+    let cs: Vec<char> = text.chars().collect();
+    let alphabet = ['\u{e4}', '\u{20ac}', '\u{1f600}', '\u{df}'];
+    let mut seen: Vec<String> = vec![];
+    let mut out = String::new();
+    let mut i = 0;
+    while i < cs.len() {
+        let c = cs[i];
+        if c == '/' && i + 1 < cs.len() && cs[i + 1] == '/' {
+            while i < cs.len() && cs[i] != '\n' {
+                out.push(cs[i]);
+                i += 1;
+            }
+        } else if c == '/' && i + 1 < cs.len() && cs[i + 1] == '*' {
+            while i < cs.len() && !(cs[i] == '*' && i + 1 < cs.len() && cs[i + 1] == '/') {
+                out.push(cs[i]);
+                i += 1;
+            }
+        } else if c == '\'' || c == '"' {
+            let mut j = i + 1;
+            let mut content = String::new();
+            while j < cs.len() && cs[j] != c && cs[j] != '\n' {
+                if cs[j] == '\\' && j + 1 < cs.len() {
+                    content.push(cs[j]);
+                    j += 1;
+                }
+                content.push(cs[j]);
+                j += 1;
+            }
+            if j < cs.len() && cs[j] == c {
+                let key = format!("{c}{content}");
+                let idx = seen.iter().position(|x| *x == key).unwrap_or_else(|| {
+                    seen.push(key);
+                    seen.len() - 1
+                });
+                let mut n = idx + 1;
+                let mut rep = String::new();
+                while n > 0 {
+                    rep.push(alphabet[n % 4]);
+                    n /= 4;
+                }
+                out.push(c);
+                out.push_str(&rep);
+                out.push(c);
+                i = j + 1;
+            } else {
+                out.push(c);
+                i += 1;
+            }
+        } else {
+            out.push(c);
+            i += 1;
+        }
+    }
+    out
+}
+
 fn variant(base: &str, rng: &mut Rng, i: u64) -> (String, &'static str) {
     let toks = lex(base);
     match i % 8 {
         0 => (base.to_string(), "valid"),
-        1 => (sprinkle_comments(base, rng, 20).replace("comment", "c\u{e9}\u{4e16}\u{1f600}mment"), "valid-multibyte-comments"),
+        1 => {
+            let b = if rng.chance(1, 2) { multibyte_literals(base) } else { base.to_string() };
+            (sprinkle_comments(&b, rng, 20).replace("comment", "c\u{e9}\u{4e16}\u{1f600}mment"), "valid-multibyte-comments")
+        }
         2 => (base.replace('\n', "\r\n"), "crlf"),
         3 => (base.replace('\n', "\r"), "lone-cr"),
         4 => (join(&mutate_tokens(&toks, rng)), "token-mutant"),
@@ -25,7 +88,13 @@ fn variant(base: &str, rng: &mut Rng, i: u64) -> (String, &'static str) {
                 _ => (format!("{base}\n\n\n"), "trailing-blank-lines"),
             }
         }
-        _ => (base.replace("'", "'\u{e9}").replace("\"", "\"\u{1f600}"), "multibyte-in-literals"),
+        _ => {
+            if rng.chance(1, 4) {
+                (base.replace("'", "'\u{e9}").replace("\"", "\"\u{1f600}"), "multibyte-after-quotes")
+            } else {
+                (multibyte_literals(base), "valid-multibyte-literals")
+            }
+        }
     }
 }
 
